@@ -5,3 +5,4 @@ import NanoVerif.Props.C05
 import NanoVerif.Props.C06
 import NanoVerif.Props.C03
 import NanoVerif.Props.C19
+import NanoVerif.Props.C14
